@@ -10,13 +10,13 @@ import (
 )
 
 type tx struct {
-	dbTx      db.IndexedBatch
+	dbTx      db.Snapshot
 	itCounter atomic.Uint32
 	// index is cursorId for an iterator
 	iterators sync.Map
 }
 
-func newTx(dbTx db.IndexedBatch) *tx {
+func newTx(dbTx db.Snapshot) *tx {
 	return &tx{
 		dbTx: dbTx,
 	}
@@ -56,5 +56,5 @@ func (t *tx) cleanup() error {
 		err = errors.Join(err, it.Close())
 		return true
 	})
-	return err
+	return errors.Join(err, t.dbTx.Close())
 }
